@@ -33,6 +33,9 @@ def main(argv):
         if prop in QUERY:
             from . import checks_query
             return checks_query.run(prop, tier)
+        if prop in ("C05", "C12", "C14"):
+            from . import checks_serial
+            return checks_serial.run(prop, tier)
         print(f"unknown property {prop}")
         return 2
     except Exception as e:  # noqa: BLE001
